@@ -48,7 +48,8 @@ PYTHON = '/venv/bin/python'
 
 
 def REPLAY_MODE(v):
-    return {'a': 'nrt', 'b': 'nrt', 'c': None, 'd': 'rt'}[v['case']['part']]
+    return {'a': 'nrt', 'b': 'nrt', 'c': None, 'd': 'rt',
+            'e': 'nrt'}[v['case']['part']]
 
 
 # ---------------------------------------------------------------------------
@@ -1262,6 +1263,129 @@ def _conc_iterations(case, n):
 
 
 # ---------------------------------------------------------------------------
+# (e) caller-owned mutable arguments shared by several builds
+# ---------------------------------------------------------------------------
+
+ARG_RATES = [[], [None], ['ir'], [0.5], ['tr', None], [None, 'ar', 0.25]]
+ARG_FUNCS = ['A', 'B', 'C', 'W', 'F']
+
+
+def _arg_function(name, shared):
+    """Graph functions with different numbers of parameters, annotations and
+    lags; every one has a leading prepended parameter and a control 'f'."""
+    m = _lib()
+    if name == 'A':
+        def fa(k, f=440, b: 'ir' = 2, c: 'tr' = 3, g=None):
+            m.io.Out.ar(0, m.osc.SinOsc.ar(f + g) * b * c * k)
+        return fa
+    if name == 'B':
+        def fb(k, x: 'ar' = 0, f=330, z: 'kr' = 0.5):
+            m.io.Out.ar(0, m.osc.SinOsc.ar(f + x) * z * k)
+        return fb
+    if name == 'C':
+        def fc(k, f=220, q=2):
+            m.io.Out.ar(0, m.osc.SinOsc.ar(f) * q * k)
+        return fc
+    if name == 'W':
+        def inner(k, t: 'tr' = 1, i: 'ir' = 0.5, g=None):
+            return m.osc.SinOsc.ar(110 + g) * t * i * k
+
+        def fw(k, f=550, y: 'ir' = 0.25):
+            x = m.SynthDef.wrap(inner, rates=shared['rates'],
+                                prepend=shared['prepend'])
+            m.io.Out.ar(0, (m.osc.SinOsc.ar(f) + x) * y * k)
+        return fw
+    if name == 'F':
+        def ff(k, f=660, u: 'tr' = 1, v: 'ir' = 2):
+            m.io.Out.ar(0, m.osc.SinOsc.ar(f) * u * v * k)
+            raise ValueError('the graph function fails')
+        return ff
+    raise core.HarnessError(name)
+
+
+def _arg_objects(rates):
+    from sc3.synth.spec import ControlSpec
+    return {'rates': list(rates), 'prepend': [0.5],
+            'variants': {'lo': {'f': 110}, 'hi': {'f': 880}},
+            'metadata': {'specs': {'g': ControlSpec(0, 10, default=5)},
+                         'by': 'c20'}}
+
+
+def _arg_content(args):
+    """Plain-data picture of the argument objects."""
+    md = args['metadata']
+    return {'rates': list(args['rates']), 'prepend': list(args['prepend']),
+            'variants': {k: dict(v) for k, v in args['variants'].items()},
+            'metadata': {'keys': list(md), 'specs': {
+                n: repr(getattr(sp, 'default', sp))
+                for n, sp in md['specs'].items()}}}
+
+
+def _arg_build(name, args):
+    m = _lib()
+    try:
+        sd = m.SynthDef('ga', _arg_function(name, args), rates=args['rates'],
+                        prepend=args['prepend'], variants=args['variants'],
+                        metadata=args['metadata'])
+        return ['ok', _sha(gp.sd_bytes(sd))]
+    except Exception as e:
+        return ['raise', type(e).__name__]
+
+
+def check_args(case):
+    """One set of argument objects is handed to every build of the sequence;
+    each build must equal the build of the same function with freshly made
+    equal arguments and must leave the content of the arguments alone."""
+    dis = []
+    shared = _arg_objects(case['rates'])
+    before = _arg_content(shared)
+    outs = []
+    for i, name in enumerate(case['seq']):
+        ref = _arg_build(name, _arg_objects(case['rates']))
+        got = _arg_build(name, shared)
+        outs.append(got)
+        force_clean()
+        if got[0] != ref[0] or (got[0] == 'ok' and got[1] != ref[1]):
+            dis.append(('shared-arguments-build-differs-from-fresh-arguments',
+                        ref, got, f'build {i + 1} ({name}) of {case["seq"]}'))
+            break
+        after = _arg_content(shared)
+        for arg in ('rates', 'prepend', 'variants', 'metadata'):
+            if after[arg] != before[arg] and not any(
+                    d[0] == f'caller-{arg}-changed-by-build' for d in dis):
+                dis.append((f'caller-{arg}-changed-by-build', before[arg],
+                            after[arg], f'after build {i + 1} ({name}) of '
+                            f'{case["seq"]}'))
+    return dis, outs
+
+
+def arg_cases(maxlen):
+    for n in range(1, maxlen + 1):
+        for seq in itertools.product(ARG_FUNCS, repeat=n):
+            for rates in ARG_RATES:
+                yield {'part': 'e', 'rates': rates, 'seq': list(seq)}
+
+
+def work_args(job):
+    acc = progenum.Acc()
+    cands = Cands()
+    for idx, case in enumerate(arg_cases(job['maxlen'])):
+        if idx % job['of'] != job['shard']:
+            continue
+        dis, outs = check_args(case)
+        for kind, exp, obs, detail in dis:
+            cands.add(kind, case, None, idx, exp, obs, detail,
+                      len(case['seq']) * 1000 + len(core.canon(case)))
+        acc.case(case, len(set(case['seq'])) > 1 or 'F' in case['seq'],
+                 [case['seq'], case['rates'], outs], steps=len(case['seq']))
+    return cands.dump(acc.result())
+
+
+def replay_args(case):
+    return check_args(case)[0]
+
+
+# ---------------------------------------------------------------------------
 # replay / predicates
 # ---------------------------------------------------------------------------
 
@@ -1280,7 +1404,7 @@ def replay(job):
                 for dis in it(case, STABILITY_RUNS)]
         return {'violates': any(hits), 'all': all(hits)}
     dis = {'a': replay_rep, 'b': replay_hist, 'c': replay_census,
-           'd': replay_conc}[part](case)
+           'd': replay_conc, 'e': replay_args}[part](case)
     out = {'violates': any(d[0] == job['kind'] for d in dis)}
     if not hidden_residue(job['kind']) and part != 'c':
         # (which bytes a build produced when they differ, and which other
@@ -1302,7 +1426,34 @@ def involves_interrupt(v, **_):
     return False
 
 
-PREDICATES = {'involves_interrupt': involves_interrupt}
+def rates_padded_with_zeros(v, **_):
+    """The failing input family of the rates finding: the caller's rates list
+    comes back as its old content followed by neutral zeros only."""
+    exp, obs = v['expected'], v['observed']
+    return (v['case'].get('part') == 'e' and isinstance(exp, list) and
+            isinstance(obs, list) and len(obs) > len(exp) and
+            obs[:len(exp)] == exp and
+            all(x == 0 and not isinstance(x, bool) for x in obs[len(exp):]))
+
+
+PREDICATES = {'involves_interrupt': involves_interrupt,
+              'rates_padded_with_zeros': rates_padded_with_zeros}
+
+STANDALONE_RATES = '''\
+import sc3
+sc3.init('nrt')
+from sc3.synth.synthdef import SynthDef
+from sc3.synth.ugens.oscillators import SinOsc
+from sc3.synth.ugens.inout import Out
+
+def graph(freq=440, amp=0.1, pan=0):
+    Out.ar(0, SinOsc.ar(freq) * amp)
+
+rates = ['ir']
+SynthDef('g', graph, rates=rates)
+assert rates == ['ir'], rates      # ['ir', 0, 0]: the caller's list was padded
+'''
+
 
 STANDALONE_INTERRUPT = '''\
 import sc3
@@ -1395,6 +1546,8 @@ def _resolve(ctx, cands):
                 'size': v['size'] + (10 ** 7 if 'walk' in case else 0)}
         if 'interrupt' in kind and 'context-left-set' in kind:
             viol['standalone'] = STANDALONE_INTERRUPT
+        if kind == 'caller-rates-changed-by-build':
+            viol['standalone'] = STANDALONE_RATES
         ctx.violation(viol)
         registered += 1
     ctx.violation_count += cands.n - registered
@@ -1527,7 +1680,9 @@ def main(ctx):
     ctx.rule = (
         'Distinct = different program (a), different operation history (b), '
         'different (item, configuration) pair (c), different choice sequence '
-        '(d). Non-trivial = (a) the program reaches an optimiser rewrite, a '
+        '(d), different (rates list, build sequence) pair (e). Non-trivial '
+        '(e) = the sequence has two different functions or a failing one; '
+        '(a) the program reaches an optimiser rewrite, a '
         'constructor shortcut, dead code or a shared operand (decided on the '
         'AST) or runs over channel lists; (b) the last step of the history '
         'follows a failing build, a description read-back, a registration / '
@@ -1543,10 +1698,13 @@ def main(ctx):
         'SynthDesc.read are not decided by the statement (accepted); the '
         'definition built inside such an operation must still equal the '
         'reference, also when written again afterwards',
+        '(e): a build may not change the content of the rates / prepend '
+        'lists and variants / metadata dicts it is given (pure function of '
+        'its arguments) and must equal the build with fresh equal arguments',
         'g:sh* / f:sh share one set of function and argument objects per '
         'process (rates and prepend lists, variants and metadata dicts, a '
-        'closed-over Env): the library may extend the rates list with '
-        'neutral entries, the bytes must not change',
+        'closed-over Env): the bytes must not change (what a build does '
+        'to the content of such objects is judged by part (e))',
         '(d): interleavings at lock operations, thread start/exit and at '
         'every read/write of main._current_synthdef (data descriptor on the '
         'metaclass, installed only during the executions); a bare unit '
@@ -1615,6 +1773,14 @@ def main(ctx):
         _run_part(ctx, 'nrt', 'work_hist', jobs,
                   f'(b) histories of <= {depth} operations over '
                   f'{len(opl)} operations', cands)
+
+    # (e) caller-owned argument objects shared by the builds of a sequence
+    maxlen = 3
+    jobs = [{'shard': i, 'of': 8, 'maxlen': maxlen} for i in range(8)]
+    _run_part(ctx, 'nrt', 'work_args', jobs,
+              f'(e) sequences of <= {maxlen} builds over {len(ARG_FUNCS)} '
+              f'functions x {len(ARG_RATES)} shared rates lists (+ shared '
+              'prepend, variants, metadata)', cands)
 
     # (d) two threads: a small alphabet (few context accesses per build)
     # at the full preemption bound, the rich alphabet one preemption lower
